@@ -116,6 +116,18 @@ class _Canon(ast.NodeTransformer):
                 else:
                     rest.append(a)
             kws += node.keywords
+            # parameters that are not supplied take the helper's own default: print it, so that moving a default between the
+            # translator and the helper's signature does not change the canonical form
+            supplied = {k.arg for k in kws}
+            nd = len(fn.args.defaults)
+            allp = [a.arg for a in fn.args.posonlyargs + fn.args.args]
+            if not rest:
+                for a, d in zip(allp[len(allp) - nd:], fn.args.defaults):
+                    if a not in supplied and a in params:
+                        try:
+                            kws.append(ast.keyword(arg=a, value=ast.Constant(value=ast.literal_eval(d))))
+                        except Exception:
+                            pass
             kws.sort(key=lambda k: k.arg or '')
             return ast.copy_location(ast.Call(func=node.func, args=rest, keywords=kws), node)
         return node
